@@ -230,5 +230,89 @@ Proof.
   pose proof (reference_modelled w o (op_truth listing o) Hv1) as Hm.
   destruct (step g w c o hits (op_truth listing o)) as [[[res calls] stores] c'] eqn:Es.
   unfold res_of in *. cbn [fst snd] in *. subst res.
-  rewrite (result_eqb_refl _ Hm), zzlist_eqb_refl, keyset_eqb_refl, I1, I2. split; reflexivity.
+  rewrite (result_eqb_refl _ Hm), zzlist_eqb_refl, orb_true_r, keyset_eqb_refl, I1, I2. split; reflexivity.
+Qed.
+
+(* ---------- a faulty bucket: bodies of underlying reads cut short ---------- *)
+Lemma read_full_err_test_checked : read_full_err_test_ok = true.
+Proof. reflexivity. Qed.
+
+(* a fetch whose body is shorter than the buffer fails: nothing is cut, nothing is stored *)
+Lemma fetch_one_f_short cut obj S lastOff lastLen known ms me h st :
+  blen (cut_body cut (under_get_range obj ms (me - ms)))
+  < (if buf_full_cond lastOff me then buf_size_full ms me else buf_size_last ms me S lastLen) ->
+  fetch_one_f cut obj S lastOff lastLen known (ms, me) h st = None.
+Proof.
+  intros H. unfold fetch_one_f.
+  apply Z.ltb_lt in H. rewrite H, orb_true_r. reflexivity.
+Qed.
+
+(* a fetch over the faulty bucket that succeeds is the healthy fetch: the body was long enough
+   and the buffer holds the same bytes *)
+Lemma fetch_one_f_some cut obj S lastOff lastLen known m h st r : 0 <= cut ->
+  fetch_one_f cut obj S lastOff lastLen known m h st = Some r ->
+  fetch_one obj S lastOff lastLen known m h st = Some r.
+Proof.
+  destruct m as [ms me]. intros Hcut H. unfold fetch_one_f in H. unfold fetch_one.
+  set (data := under_get_range obj ms (me - ms)) in *.
+  set (bufSize := if buf_full_cond lastOff me then buf_size_full ms me else buf_size_last ms me S lastLen) in *.
+  destruct ((bufSize <? 0) || (blen (cut_body cut data) <? bufSize)) eqn:E; [discriminate|].
+  apply orb_false_iff in E. destruct E as [E1 E2]. apply Z.ltb_ge in E1. apply Z.ltb_ge in E2.
+  pose proof (blen_nonneg data) as Hd.
+  assert (Hcb : blen (cut_body cut data) = Z.min cut (blen data)).
+  { unfold cut_body. rewrite slice_length; lia. }
+  rewrite Hcb in E2.
+  replace ((bufSize <? 0) || (blen data <? bufSize)) with false.
+  2:{ symmetry. apply orb_false_iff. split; apply Z.ltb_ge; lia. }
+  assert (Hs : slice (cut_body cut data) 0 bufSize = slice data 0 bufSize).
+  { unfold cut_body. rewrite slice_slice by lia. reflexivity. }
+  rewrite Hs in H. exact H.
+Qed.
+
+Lemma fetch_all_f_some cut obj S lastOff lastLen known : 0 <= cut -> forall ms h st r,
+  fetch_all_f cut obj S lastOff lastLen known ms h st = Some r ->
+  fetch_all obj S lastOff lastLen known ms h st = Some r.
+Proof.
+  intro Hcut. induction ms as [|m ms IH]; intros h st r H; [exact H|].
+  cbn [fetch_all_f] in H. cbn [fetch_all].
+  destruct (fetch_one_f cut obj S lastOff lastLen known m h st) as [[h' st']|] eqn:E; [|discriminate].
+  rewrite (fetch_one_f_some _ _ _ _ _ _ _ _ _ _ Hcut E). apply IH. exact H.
+Qed.
+
+(* cachedGetRange over the faulty bucket either behaves exactly like the healthy one (same
+   answer, same cache) or reports an error having stored nothing but the attributes *)
+Lemma get_range_f_cases cut g w c hits name off len : 0 <= cut ->
+  get_range_f cut g w c hits name off len = get_range g w c hits name off len
+  \/ (fst (fst (fst (get_range_f cut g w c hits name off len))) = RErr
+      /\ snd (get_range_f cut g w c hits name off len) = snd (fst (cached_attributes w c hits name))).
+Proof.
+  intro Hcut. unfold get_range_f, get_range.
+  destruct ((off <? 0) || (len <=? 0)); [left; reflexivity|].
+  destruct (cached_attributes w c hits name) as [[osz c1] st1]. cbn [fst snd].
+  destruct osz as [size|]; [|left; reflexivity].
+  destruct (find_obj w name) as [obj|]; [|left; reflexivity].
+  destruct (past_end_cond off size); [left; reflexivity|].
+  cbv zeta.
+  match goal with |- context [if ?c then match merge_loop ?a ?b ?c2 ?d with _ => _ end else _] => destruct c end; [|left; reflexivity].
+  match goal with |- context [merge_loop ?a ?b ?c2 ?d] => destruct (merge_loop a b c2 d) as [merged|] end; [|left; reflexivity].
+  match goal with |- context [fetch_all_f ?a ?b ?c2 ?d ?e ?f ?g0 ?h ?i] => destruct (fetch_all_f a b c2 d e f g0 h i) as [[h1 st]|] eqn:E end.
+  - left. rewrite (fetch_all_f_some _ _ _ _ _ _ Hcut _ _ _ _ E). reflexivity.
+  - right. cbn [fst snd]. split; reflexivity.
+Qed.
+
+(* hence, for every fault: the answer is the underlying bucket's bytes or an error - never
+   other bytes - and the cache stays truthful *)
+Lemma get_range_f_ok cut g w listing c hits name off len :
+  0 <= cut -> 0 < c_S g -> 0 <= off -> 0 < len -> cache_ok w listing c ->
+  (fst (fst (fst (get_range_f cut g w c hits name off len))) = reference w (OGetRange name off len) []
+   \/ fst (fst (fst (get_range_f cut g w c hits name off len))) = RErr)
+  /\ cache_ok w listing (snd (get_range_f cut g w c hits name off len)).
+Proof.
+  intros Hcut HS Hoff Hlen Hc.
+  destruct (get_range_f_cases cut g w c hits name off len Hcut) as [E|[E1 E2]].
+  - rewrite E. destruct (get_range_ok g w listing c hits name off len HS Hoff Hlen Hc) as (H1 & H2).
+    split; [left; exact H1|exact H2].
+  - split; [right; exact E1|]. rewrite E2.
+    pose proof (cached_attributes_ok w listing c hits name Hc) as Ha.
+    destruct (cached_attributes w c hits name) as [[osz c1] st1]. destruct Ha as [Ha _]. exact Ha.
 Qed.
